@@ -263,3 +263,31 @@ def disturb(lib, budget=4):
                 pass
             ops += 1
     return ops
+
+
+TEMPLATE_BAG = bytes.fromhex('b5ee9c7201010301000b00020211020100022200023' + '3')    # 11 -> [33, 22]
+
+
+def cell_subclass(reenter=None):
+    """An application's own cell class. The bag readers take the class to instantiate (`Cell.from_boc` / `one_from_boc` are
+    classmethods that hand `cls` down to the parser), so instances of a subclass are cells like any other: same hashes, equal to
+    and colliding with plain cells of the same hash, serialised like them. `reenter`: bytes of another bag that the constructor
+    parses first - a parse started inside a parse, which is the only re-entrancy a single-threaded caller can cause."""
+    from pytoniq_core.boc.cell import Cell
+
+    class AppCell(Cell):
+        def __init__(self, *a, **k):
+            if reenter is not None:
+                inner = Cell.one_from_boc(reenter)
+                assert len(inner.refs) == 2, 'the inner parse returned another bag'
+            super().__init__(*a, **k)
+    return AppCell
+
+
+class BocBytes(bytes):
+    """bytes received from a transport layer's own type"""
+
+
+class BocText(str):
+    """text received as a str subclass (e.g. a str-valued Enum member behaves the same way)"""
+
